@@ -45,6 +45,20 @@ impl Overlay {
         Root(self.inner.prev_root)
     }
 
+    /// The commit epoch of the store this overlay was prepared on. `None` if it has a parent overlay.
+    pub(super) fn base_epoch(&self) -> Option<u64> {
+        self.inner.base_epoch
+    }
+
+    /// Record the commit epoch of the store this (freshly created) overlay was prepared on.
+    pub(super) fn with_base_epoch(mut self, base_epoch: Option<u64>) -> Self {
+        // the overlay was just created: nothing else refers to it yet.
+        if let Some(inner) = Arc::get_mut(&mut self.inner) {
+            inner.base_epoch = base_epoch;
+        }
+        self
+    }
+
     /// Check whether the parent of this overlay matches the provided marker.
     /// If the provided marker is `None`, then this checks that this overlay doesn't have a parent.
     pub(super) fn parent_matches_marker(&self, marker: Option<&OverlayMarker>) -> bool {
@@ -80,6 +94,7 @@ impl Overlay {
 
 struct OverlayInner {
     prev_root: Node,
+    base_epoch: Option<u64>,
     root: Node,
     index: Index,
     data: Arc<Data>,
@@ -405,6 +420,7 @@ impl LiveOverlay {
             inner: Arc::new(OverlayInner {
                 index,
                 prev_root,
+                base_epoch: None,
                 root,
                 data: Arc::new(Data {
                     pages: page_changes,
